@@ -425,6 +425,9 @@ func (g *gen) config() config {
 		cf.total = uint32((sum + 1 + g.pick(2)) % 6)
 		if g.pick(2) == 0 && sum > 1 {
 			cf.total = uint32(sum - 1)
+			if g.pick(2) == 0 && len(cf.grants) > 1 {
+				cf.grants[0].idx = nil // a keyless grant consumes the scarce shares first
+			}
 		}
 	}
 	if g.pick(4) == 0 {
@@ -645,6 +648,14 @@ func (g *gen) tamper(b built) tamper {
 		}
 		return tamper{kind: "setidx", i: gi, idx: idx}
 	case 5:
+		if g.pick(2) == 0 {
+			// keep the count, replace one index by the boundary value len(keypairs) (or just above / far above)
+			idx := append([]uint32{}, b.env.Grants[gi].KeypairIndexes...)
+			if len(idx) > 0 {
+				idx[g.pick(len(idx))] = []uint32{uint32(b.cf.nkeys), uint32(b.cf.nkeys), uint32(b.cf.nkeys + 1), 4294967295}[g.pick(4)]
+				return tamper{kind: "setidx", i: gi, idx: idx}
+			}
+		}
 		return tamper{kind: "dropct", i: gi}
 	case 6, 7:
 		cj := 0
@@ -777,6 +788,10 @@ func c17(g *gen, ctxs []string, payload func() []byte) {
 		{nkeys: 2, threshold: 1, total: 1, grants: []grantCfg{{1, []uint32{0}}, {1, []uint32{1}}}},
 		{nkeys: 2, threshold: 1, grants: []grantCfg{{2, nil}, {1, []uint32{1}}}},
 		{nkeys: 2, threshold: 1, grants: []grantCfg{{0, []uint32{0}}, {0, []uint32{1}}}},
+		{nkeys: 2, threshold: 1, total: 2, grants: []grantCfg{{2, nil}, {2, []uint32{0, 1}}}},
+		{nkeys: 1, threshold: 0, total: 1, grants: []grantCfg{{1, nil}, {1, []uint32{0}}}},
+		{nkeys: 2, threshold: 2, total: 3, grants: []grantCfg{{2, []uint32{0}}, {2, nil}, {2, []uint32{1}}}},
+		{nkeys: 2, threshold: 1, total: 3, grants: []grantCfg{{1, nil}, {2, []uint32{0, 1}}}},
 		{nkeys: 1, threshold: 0, grants: nil},
 		{nkeys: 0, threshold: 0, grants: []grantCfg{{1, nil}}},
 		{nkeys: 1, threshold: 0, grants: []grantCfg{{1, []uint32{1}}}},
@@ -832,6 +847,29 @@ func c18(g *gen, ctxs []string, payload func() []byte) {
 			g.checkTamper(b, "forged-grant", o, map[string]any{"config": cf.String(), "tamper": tm.term()})
 			g.emit(b, tm, []int{0}, b.ctx, &o)
 			c.Class("tamper-forge")
+			n++
+		}
+	}
+	// regression: a keypair index equal to the number of envelope keypairs
+	for _, nk := range []int{1, 2} {
+		var all []uint32
+		for k := 0; k < nk; k++ {
+			all = append(all, uint32(k))
+		}
+		cf := config{nkeys: nk, threshold: 0, grants: []grantCfg{{1, all}}}
+		b := g.build(cf, ctxs[0], []byte("payload"))
+		if b.err != nil {
+			continue
+		}
+		for pos := 0; pos < nk; pos++ {
+			idx := append([]uint32{}, all...)
+			idx[pos] = uint32(nk)
+			tm := tamper{kind: "setidx", i: 0, idx: idx}
+			sel := g.allSel(nk)
+			o := unlock(b.ctx, tm.apply(b.env, b.ctx, g.keys), g.privs(sel))
+			g.checkTamper(b, "index-tampered", o, map[string]any{"config": cf.String(), "tamper": tm.term()})
+			g.emit(b, tm, sel, b.ctx, &o)
+			c.Class("tamper-setidx")
 			n++
 		}
 	}
